@@ -541,7 +541,16 @@ class CallMixin:
         val = self.pure(lambda: self.eval(node.elt, sub), assume=z3.And(i >= 0, i < to_term(count, "int")))
         k = kind_of(val)
         if k is None:
-            raise Unsupported("comprehension over symbolic-length sequence with non-scalar element")
+            # no closed form for non-scalar elements: unroll by path forking (complete when the count is bounded by the
+            # path condition, e.g. a case split of the contract; otherwise the unit is out of reach)
+            count_t = to_term(count, "int")
+            out = []
+            for j in range(41):
+                if not self.path.decide(z3.IntVal(j) < count_t):
+                    return self.path.alloc(SeqCell(SeqV("list", seqops.elem_kind_of_items(out) if out else None, items=out)))
+                self.assign_target(gen.target, getter(j), sub)
+                out.append(self.eval(node.elt, sub))
+            raise Unsupported("comprehension over symbolic-length sequence with non-scalar element (more than 40 elements possible)")
         arr = z3.Lambda([i], to_term(val, k))
         return self.path.alloc(SeqCell(SeqV("list", k, arr=arr, length=count)))
 
